@@ -6,7 +6,8 @@ F = "eliot/filter.py::"
 MSG = "dict[task_uuid=str;task_level=list[int];timestamp=float;*=Any]"
 
 contract(P + "_render_timestamp", props=["C20"], types={"message": MSG, "local_timezone": "bool"}, returns="str", modifies=[],
-         ensures=[("utc-is-marked-with-Z-local-time-is-not", "implies(not local_timezone, str_endswith(result, 'Z'))", ["C20"])])
+         ensures=[("the-iso-text-of-the-message's-timestamp-in-utc-marked-with-Z-unless-local-time-was-asked-for",
+                   "result == ite(local_timezone, iso_text(dget(dict_of(message), 'timestamp'), False, 'T'), iso_text(dget(dict_of(message), 'timestamp'), True, 'T') + 'Z')", ["C20"])])
 
 contract(P + "pretty_format.add_field", props=["C20"], types={"previous": "str", "key": "str", "value": "Any"}, returns="str", modifies=[],
          ensures=[("one-entry-naming-the-field", "str_contains(result, key)", ["C20"])])
@@ -21,7 +22,8 @@ contract(P + "pretty_format", props=["C20"], types={"message": MSG, "local_timez
          loops={1: {"locals": {"REST": "seq"}, "modifies": [],
                     "inv": [("every-non-header-field-so-far-rendered-exactly-once-in-order", "REST == filter_out(_done, %s)" % SKIP),
                             ("remember-the-enumeration", "KEYS == _s")], "ghost_init": [("KEYS", "_s")]}},
-         ensures=[("type-and-status-fields-first", "NFIRST == ite('action_type' in message, 1, 0) + ite('message_type' in message, 1, 0) + ite('action_status' in message, 1, 0)", ["C20"]),
+         ensures=[("starts-with-the-task-uuid", "str_startswith(result, sval(dget(dict_of(message), 'task_uuid')))", ["C20"]),
+                  ("type-and-status-fields-first", "NFIRST == ite('action_type' in message, 1, 0) + ite('message_type' in message, 1, 0) + ite('action_status' in message, 1, 0)", ["C20"]),
                   ("then-every-remaining-field-exactly-once", "REST == filter_out(KEYS, %s) and len(KEYS) == card(message) and "
                    "forall(lambda k: contains(KEYS, k) == contains(dict_of(message), k), 'val')" % SKIP, ["C20"])])
 
@@ -35,6 +37,7 @@ contract(P + "compact_format", props=["C20"], types={"message": MSG, "local_time
                     "ghost_init": [("KEYS", "_s")]}},
          aliases={"ORDERED": 0}, ghosts={"KEYS": "seq"},
          ensures=[("accepts-every-eliot-message-and-returns-text", "dict_of(message) == old(dict_of(message))", ["C20"]),
+                  ("starts-with-the-task-uuid", "str_startswith(result, sval(dget(dict_of(message), 'task_uuid')))", ["C20"]),
                   ("the-rendered-fields-are-the-type-and-status-fields-and-every-remaining-field-with-the-message's-values",
                    "dict_of(ORDERED) == restrict(message, union(setof('action_type', 'message_type', 'action_status'), setminus(dom(message), setof('timestamp', 'task_uuid', 'task_level', 'message_type', 'action_type', 'action_status'))))", ["C20"])])
 
